@@ -324,7 +324,18 @@ func parseIf(s string, thenC []any, elseC []any, oneLine bool) N {
 		cond["op"] = "if"
 		cond["then"] = thenC
 		cond["else"] = elseC
+		if _, has := cond["neg"]; !has {
+			cond["neg"] = false
+		}
 		return cond
+	}
+	// if not <condition> ... : the negated form of any condition
+	if strings.HasPrefix(s, "if not ") {
+		c := parseIf("if "+strings.TrimPrefix(s, "if not "), thenC, elseC, oneLine)
+		if c["op"] == "if" {
+			c["neg"] = !c["neg"].(bool)
+		}
+		return c
 	}
 	if m := reIfDefined.FindStringSubmatch(s); m != nil {
 		return mk(N{"kind": "defined", "var": m[1], "l": []any{}, "r": []any{}, "cmp": "", "q": false}, m[2])
